@@ -347,6 +347,15 @@ impl Handle {
         self.ctx.keydir.determine_map(key)
     }
 
+    /// Run `f` while the KeyDir shard that holds `key` is locked exclusively, as it is for the
+    /// moment of an insert or a removal of any key of that shard (verification hook: lets a
+    /// harness make real contention on a shard last as long as it likes).
+    pub fn verif_with_shard_locked<R>(&self, key: &Bytes, f: impl FnOnce() -> R) -> R {
+        let idx = self.ctx.keydir.determine_map(key);
+        let _guard = self.ctx.keydir.shards()[idx].write();
+        f()
+    }
+
     /// Number of readers currently in the pool and the pool's capacity (verification hook).
     pub fn verif_pool(&self) -> (usize, usize) {
         (self.readers.len(), self.readers.capacity())
